@@ -15,6 +15,9 @@
      (runs of N / X at the start, in the middle, at the end, whole sequence), after configure_wrap with
      widths below / at / above the row count and after configure(motif); also on buffers built by
      sample / new (arbitrary padding that must never be counted).
+ (7) Clone (the copy has no spare capacity: configure_wrap after it must reallocate), DenseMatrix::from +
+     StripedSequence::new (identity without look-ahead rows; with them all rows become sequence rows),
+     From<EncodedSequence> through every dispatcher arm.
 """
 import os
 
@@ -112,6 +115,25 @@ for c in (1, 2, 4, 8, 16, 32, 48, 64):
         wrow = chr(97 + k - 1) * c
         case(alpha, c, ["sm:%d:%d" % (77 + c, L), "cw:2", "cw:5",
                         "nw:%d:%s" % (L, "/".join([withwild(k, c, "every"), wrow, nowild(k, c)])), "cw:1", "cf:6"], [L])
+
+# ---- (7) Clone and the From conversions
+for c in (1, 2, 4, 8, 16, 32, 48, 64):
+    for alpha in ("dna", "protein"):
+        k = 5 if alpha == "dna" else 21
+        for L in (0, 1, c - 1 if c > 1 else 2, 3 * c + 2):
+            rows = (L + c - 1) // c
+            # clone (exact capacity) then look-ahead rows beyond DEFAULT_EXTRA_ROWS, clone again, restripe
+            case(alpha, c, ["si:g:" + withwild(k, L, "mid"), "cl", "cw:3", "cl", "cw:%d" % (rows + 40), "cl",
+                            "si:g:" + nowild(k, L + 2), "cl", "cf:4"], [L, L + 2])
+            # DenseMatrix::from + new: without look-ahead rows (identity), then with (rows re-read)
+            case(alpha, c, ["si:g:" + withwild(k, L, "end"), "vm", "cw:2", "vm", "cw:1", "cl", "vm", "si:g:" + nowild(k, L + 1), "vm"], [L, L + 1])
+            case(alpha, c, ["vm", "cl", "cw:2", "vm", "sm:%d:%d" % (5 + L + c, L), "vm", "cw:%d" % (rows + 1), "vm", "cf:3"], [L])
+for b in ("dg", "ds", "da"):
+    for alpha in ("dna", "protein"):
+        k = 5 if alpha == "dna" else 21
+        for L in (0, 1, 31, 32, 33, 40, 62, 1000, 1024, 1056, 1089):
+            case(alpha, 32, ["si:g:" + nowild(k, 1290), "cw:5", "fe:%s:%s" % (b, withwild(k, L, "start end")), "cw:2", "cl",
+                            "fe:%s:%s" % (b, nowild(k, L // 2)), "vm", "cf:7"], [L, L // 2, 1290])
 
 open(os.path.join(os.path.dirname(os.path.abspath(__file__)), "reuse.txt"), "w").write("\n".join(lines) + "\n")
 print(len(lines), "cases")
